@@ -152,8 +152,10 @@ def run(tier, seed):
     from oracle import tzsrc
     text, z1, l1, _ = tzsrc.normalise_zi()
     fresh = 0
-    for scope in ('extended', 'basic'):
-        comp = pipeline.compile_text(text, scope)
+    from pyexp import mutants
+    t10, z10, l10 = mutants.link_source()          # names with '-', '_', '+', links in every relation to zones
+    for src_text, scope in [(text, 'extended'), (text, 'basic'), (t10, 'extended'), (t10, 'basic')]:
+        comp = pipeline.compile_text(src_text, scope)
         d = tempfile.mkdtemp(prefix='verif-c11-')
         try:
             pipeline.generate(comp, 'arduino', d, db_namespace='vdb', buf_sizes={z: 7 for z in comp.tzdb['zones_map']})
@@ -181,7 +183,7 @@ def run(tier, seed):
     rep.coverage['fresh_source_zones'] = fresh
     n_eval += fresh
     rep.assumptions += ['id_baseline.json is the committed name -> id snapshot (ids are a pure function of the name, so stability <=> function and names unchanged)',
-                        'freshly compiled source = the vendored 2025b release through the real pipeline and ArduinoGenerator, both scopes, read back from the compiled tables']
+                        'freshly compiled sources = the vendored 2025b release and the S10 link source (names with - _ +, chained / duplicate / dangling links) through the real pipeline and ArduinoGenerator, both scopes, read back from the compiled tables']
     return rep.finish(exhaustive=True, extra={'evaluations': n_eval + rep.coverage.get('getZoneId_checks', 0), 'distinct_nontrivial': len(allnames),
         'samples': [{'zone': 'America/Los_Angeles', 'id': '0x%08x' % djb2('America/Los_Angeles')}, {'link': 'US/Pacific', 'target': 'America/Los_Angeles'}],
         'rule': 'every zone, id constant, link and registry entry of zonedb and zonedbx (read from the compiled objects through a generated translation unit), every zonedbpy name and every baseline name'})
